@@ -45,7 +45,7 @@ DOC_KEY_MAP = {
     "typed": {"data_id": "i", "str": "s", "kind": "k"}, "typedcb": {"data_id": "i", "str": "s", "kind": "k"},
     "rectyped": {"data_id": "i", "str": "s", "kind": "k"},
     "recpop": {"data_id": "i", "str": "s"}, "recpoptyped": {"data_id": "i", "str": "s", "kind": "k"},
-    "reckind": {"data_id": "i", "str": "s", "kind": "k"},
+    "reckind": {"data_id": "i", "str": "s", "kind": "k"}, "labtyped": {"data_id": "i", "str": "s", "kind": "k"}, "lab": {"data_id": "i", "str": "s"},
     "recnest": {"data_id": "i", "str": "s"}, "recshort": {"data_id": "i", "str": "s"},
     "derived": {"data_id": "i", "str": "s", "type": "t", "name": "n", "size": "z"},  # c05.RecTree.DEFAULT_KEY_MAP
     "derivedtyped": {"data_id": "i", "str": "s", "kind": "k", "type": "t", "name": "n"},  # c05.EntTypedTree.DEFAULT_KEY_MAP
@@ -68,7 +68,9 @@ def long_payload(fam: Family, obj, custom_id: bool, data_id, kind):
         d["data_id"] = data_id
     if fam.typed:
         d["kind"] = kind
-    if fam.name == "reckind":
+    if fam.name in ("lab", "labtyped"):
+        d["str"] = obj.text
+    elif fam.name == "reckind":
         d.update({"name": obj.name, "size": obj.size})
     elif fam.name == "recnest":
         d.update({"type": "rec", "name": obj.name, "size": obj.size, "attrs": {"s": obj.size, "i": obj.name, "str": "v", "k": [obj.size, {"s": 1}]}})
